@@ -303,7 +303,7 @@ func runC16(w *mc.Worker) {
 	}
 	var stages []bound
 	if w.Tier == "quick" {
-		stages = []bound{{"w2-e1", 2, 2, 1, false}, {"v2-e1", 2, 1, 1, true}, {"w3-e0", 3, 2, 0, false}}
+		stages = []bound{{"w2-e1", 2, 2, 1, false}, {"v2-e1", 2, 1, 1, true}, {"v1-e2", 1, 1, 2, true}, {"w3-e0", 3, 2, 0, false}}
 	} else {
 		stages = []bound{{"w3-e1", 3, 2, 1, false}, {"v2-e2", 2, 1, 2, true}, {"v3-e1", 3, 2, 1, true}, {"w4-e0", 4, 2, 0, false}}
 	}
